@@ -183,13 +183,34 @@ type cond struct {
 // domConds returns the branch conditions known to hold on entry to block b:
 // for every If block I with a successor S whose only predecessor is I and
 // which dominates b (or is b), the (negated) condition of I.
-func domConds(b *ssa.BasicBlock) []cond {
+func domConds(b *ssa.BasicBlock) []cond { return domCondsOpt(b, false) }
+
+// entryConds is like domConds but treats a loop header (all predecessors but
+// one are back edges from blocks it dominates) as having that one entry
+// predecessor: the conditions hold when the loop is entered, not necessarily
+// on later iterations.
+func entryConds(b *ssa.BasicBlock) []cond { return domCondsOpt(b, true) }
+
+func domCondsOpt(b *ssa.BasicBlock, throughLoopHeaders bool) []cond {
 	var out []cond
 	for x := b; x != nil; x = x.Idom() {
-		if len(x.Preds) != 1 {
+		var p *ssa.BasicBlock
+		if len(x.Preds) == 1 {
+			p = x.Preds[0]
+		} else if throughLoopHeaders {
+			n := 0
+			for _, q := range x.Preds {
+				if !x.Dominates(q) {
+					p = q
+					n++
+				}
+			}
+			if n != 1 {
+				continue
+			}
+		} else {
 			continue
 		}
-		p := x.Preds[0]
 		if len(p.Instrs) == 0 {
 			continue
 		}
